@@ -7,33 +7,19 @@
     * `running_ignores_start`  a running operation ignores a second `start`
     * `finished_silent` a finished operation produces nothing at all (no outputs either)
 -/
-import UnifexModel.Calc.Lemmas
+import UnifexModel.Calc.StopInv
 
 namespace Unifex.Calc
 
 variable (specs : Nat → LeafSpec)
 
-@[simp] theorem markSrc_ph (st : BinSt) (b : Bool) : (markSrc st b).ph = st.ph := by
-  unfold markSrc; split <;> rfl
-
-@[simp] theorem setRa_ph (st : BinSt) (r : Option Outcome) : (setRa st r).ph = st.ph := by
-  unfold setRa; split <;> rfl
-
-@[simp] theorem setRb_ph (st : BinSt) (r : Option Outcome) : (setRb st r).ph = st.ph := by
-  unfold setRb; split <;> rfl
-
-@[simp] theorem waRecord_ph (st : BinSt) (isA : Bool) (o : Outcome) : (waRecord st isA o).1.ph = st.ph := by
-  unfold waRecord
-  cases isA <;> cases o <;> simp <;> split <;> simp
-
-@[simp] theorem waRec_ph (st : BinSt) (isA : Bool) (r : Option Outcome) : (waRec st isA r).1.ph = st.ph := by
-  unfold waRec; split <;> simp
+attribute [local simp] markSrc_ph setRa_ph setRb_ph waRec_ph waAfterChild_ph swAfterChild_ph
 
 /-- the phase a result leaves the operation in agrees with whether it signalled -/
 def PhaseOk (r : Res) : Prop := r.1.phase = (if r.2.2.isSome then Phase.finished else Phase.running)
 
-theorem waFinish_phaseOk (a b : Op) (st : BinSt) (outs : List Out) (h : st.ph = .running) :
-    PhaseOk (waFinish a b st outs) := by
+theorem waFinish_phaseOk (k : BinKind) (a b : Op) (st : BinSt) (outs : List Out) (h : st.ph = .running) :
+    PhaseOk (waFinish k a b st outs) := by
   unfold waFinish PhaseOk
   split <;> simp [Op.phase, h]
 
@@ -75,7 +61,7 @@ theorem start_phase (fuel : Nat) (env : Env) (op : Op) (h : op.phase = .idle) :
   | const k ph =>
     simp only [Op.phase] at h; subst h
     simp [deliver, constStep, PhaseOk, Op.phase]
-  | leaf i ph =>
+  | leaf i ph nt =>
     simp only [Op.phase] at h; subst h
     cases hsp : specs i with
     | inline o => simp [deliver, leafStep, PhaseOk, hsp, Op.phase]
@@ -90,21 +76,23 @@ theorem start_phase (fuel : Nat) (env : Env) (op : Op) (h : op.phase = .idle) :
   | bin k a b st =>
     simp only [Op.phase] at h
     cases k <;> simp only [deliver, binStep, waStep, swStep, seqStep, h]
-    case whenAll => exact waFinish_phaseOk _ _ _ _ (by simp)
-    case stopWhen => exact swFinish_phaseOk _ _ _ _ (by simp)
+    case whenAll => exact waFinish_phaseOk _ _ _ _ _ (by simp [waStart, BinSt.init])
+    case whenAny => exact waFinish_phaseOk _ _ _ _ _ (by simp [waStart, BinSt.init])
+    case stopWhen => exact swFinish_phaseOk _ _ _ _ (by simp [swStart, BinSt.init])
     all_goals exact seqAfterFirst_phaseOk _ _ _ _ _ _
 
 /-- a running operation that processes an event: `finished` iff it signalled, else still `running` -/
-theorem running_phase (fuel : Nat) (ev : Ev) (op : Op) (h : op.phase = .running) :
-    PhaseOk (deliver specs fuel ev op) := by
-  cases fuel with
-  | zero => simp [deliver, PhaseOk, h]
-  | succ n =>
+theorem running_phase (n : Nat) (ev : Ev) (op : Op) (h : op.phase = .running) :
+    PhaseOk (deliver specs (n + 1) ev op) := by
+  cases n with
+  | zero =>
+    -- one unit of fuel: composite nodes give their children no fuel, but the phase of the result is
+    -- still determined by whether the node signalled
     cases op with
     | const k ph =>
       simp only [Op.phase] at h; subst h
       cases ev <;> simp [deliver, constStep, PhaseOk, Op.phase]
-    | leaf i ph =>
+    | leaf i ph nt =>
       simp only [Op.phase] at h; subst h
       cases ev with
       | start env => simp [deliver, leafStep, PhaseOk, Op.phase]
@@ -130,20 +118,73 @@ theorem running_phase (fuel : Nat) (ev : Ev) (op : Op) (h : op.phase = .running)
     | bin k a b st =>
       simp only [Op.phase] at h
       cases k <;> cases ev <;> simp only [deliver, binStep, waStep, swStep, seqStep, h]
-      case whenAll.start => simp [PhaseOk, Op.phase, h]
-      case whenAll.stop =>
+      case whenAll.start | whenAny.start | stopWhen.start => simp [PhaseOk, Op.phase, h]
+      case whenAll.stop | whenAny.stop =>
         unfold waStop
         split
         · simp [PhaseOk, Op.phase, h]
-        · exact waFinish_phaseOk _ _ _ _ (by simp [h])
-      case whenAll.complete => exact waFinish_phaseOk _ _ _ _ (by simp [h])
-      case stopWhen.start => simp [PhaseOk, Op.phase, h]
+        · exact waFinish_phaseOk _ _ _ _ _ (by simp [h])
+      case whenAll.complete | whenAny.complete => exact waFinish_phaseOk _ _ _ _ _ (by simp [waComplete, h])
       case stopWhen.stop =>
         unfold swStop
         split
         · simp [PhaseOk, Op.phase, h]
         · exact swFinish_phaseOk _ _ _ _ (by simp [h])
-      case stopWhen.complete => exact swFinish_phaseOk _ _ _ _ (by simp [h])
+      case stopWhen.complete => exact swFinish_phaseOk _ _ _ _ (by simp [swComplete, h])
+      all_goals
+        first
+        | (simp [PhaseOk, Op.phase, h]; done)
+        | (cases hs : st.second
+           · first
+             | exact seqAfterFirst_phaseOk _ _ _ _ _ _
+             | simp [PhaseOk, Op.phase, h]
+           · first
+             | exact seqSecond_phaseOk _ _ _ _ _ h
+             | simp [PhaseOk, Op.phase, h])
+  | succ n =>
+    cases op with
+    | const k ph =>
+      simp only [Op.phase] at h; subst h
+      cases ev <;> simp [deliver, constStep, PhaseOk, Op.phase]
+    | leaf i ph nt =>
+      simp only [Op.phase] at h; subst h
+      cases ev with
+      | start env => simp [deliver, leafStep, PhaseOk, Op.phase]
+      | stop =>
+        cases hsp : specs i with
+        | inline o => simp [deliver, leafStep, PhaseOk, hsp, Op.phase]
+        | pending r => cases r <;> simp [deliver, leafStep, PhaseOk, hsp, Op.phase]
+      | complete j o =>
+        simp only [deliver, leafStep, PhaseOk]
+        by_cases hij : i = j <;> simp [hij, Op.phase]
+    | un k c ph e0 =>
+      simp only [Op.phase] at h; subst h
+      cases ev with
+      | start env => simp [deliver, unStep, PhaseOk, Op.phase]
+      | stop =>
+        simp only [deliver, unStep]
+        split
+        · exact unWrap_phaseOk _ _ _
+        · simp [PhaseOk, Op.phase]
+      | complete j o =>
+        simp only [deliver, unStep]
+        exact unWrap_phaseOk _ _ _
+    | bin k a b st =>
+      simp only [Op.phase] at h
+      cases k <;> cases ev <;> simp only [deliver, binStep, waStep, swStep, seqStep, h]
+      case whenAll.start | whenAny.start | stopWhen.start => simp [PhaseOk, Op.phase, h]
+      case whenAll.stop | whenAny.stop =>
+        unfold waStop
+        split
+        · simp [PhaseOk, Op.phase, h]
+        · exact waFinish_phaseOk _ _ _ _ _ (by simp [h])
+      case whenAll.complete | whenAny.complete => exact waFinish_phaseOk _ _ _ _ _ (by simp [waComplete, h])
+      case stopWhen.stop =>
+        unfold swStop
+        split
+        · simp [PhaseOk, Op.phase, h]
+        · exact swFinish_phaseOk _ _ _ _ (by simp [h])
+      case stopWhen.complete => exact swFinish_phaseOk _ _ _ _ (by simp [swComplete, h])
       all_goals
         first
         | (simp [PhaseOk, Op.phase, h]; done)
@@ -160,7 +201,7 @@ theorem running_ignores_start (fuel : Nat) (env : Env) (op : Op) (h : op.phase =
     deliver specs (fuel + 1) (.start env) op = (op, [], none) := by
   cases op with
   | const k ph => simp only [Op.phase] at h; subst h; simp [deliver, constStep]
-  | leaf i ph => simp only [Op.phase] at h; subst h; simp [deliver, leafStep]
+  | leaf i ph nt => simp only [Op.phase] at h; subst h; simp [deliver, leafStep]
   | un k c ph e0 => simp only [Op.phase] at h; subst h; simp [deliver, unStep]
   | bin k a b st =>
     simp only [Op.phase] at h
@@ -171,7 +212,7 @@ theorem finished_silent (fuel : Nat) (ev : Ev) (op : Op) (h : op.phase = .finish
     deliver specs (fuel + 1) ev op = (op, [], none) := by
   cases op with
   | const k ph => simp only [Op.phase] at h; subst h; cases ev <;> simp [deliver, constStep]
-  | leaf i ph => simp only [Op.phase] at h; subst h; cases ev <;> simp [deliver, leafStep]
+  | leaf i ph nt => simp only [Op.phase] at h; subst h; cases ev <;> simp [deliver, leafStep]
   | un k c ph e0 => simp only [Op.phase] at h; subst h; cases ev <;> simp [deliver, unStep]
   | bin k a b st =>
     simp only [Op.phase] at h
